@@ -13,6 +13,7 @@ from pbsym.ctx import B
 from pbsym.models.assoc import AssocDict
 
 PROPERTY = 'C07'
+TECHNIQUE = 'CrossHair/z3 symbolic execution of save/get on every cassette with symbolic key texts (association-list containers); concrete real-jsonpickle validator on adversarial keys'
 FUNCTIONS = ['playback/tape_cassettes/in_memory/in_memory_tape_cassette.py::InMemoryTapeCassette._save_recording',
              'playback/tape_cassettes/in_memory/in_memory_tape_cassette.py::InMemoryTapeCassette.get_recording',
              'playback/tape_cassettes/file_based/file_based_tape_cassette.py::FileBasedTapeCassette._save_recording',
